@@ -648,7 +648,7 @@ fn run_histories(out: &mut dyn Write) {
 const CORPUS: &str = "\
 # K3 new variable on an nnf-loaded model (c2d): ignored
 c2d 1 : nnf 5 4 1 ; A 0 ; L 1 ; L -1 ; O 1 2 1 2 ; A 2 0 3 :: add 2
-# K4 dead branch after a unit edit: core under-reports
+# K4 dead branch after a unit edit: the core under-reported (repaired by F22; kept as a regression case)
 d4 3 : o 1 0 ; o 2 0 ; t 3 0 ; f 4 0 ; 1 3 1 2 3 0 ; 1 2 -1 0 ; 2 4 2 0 ; 2 3 -2 3 0 :: add 2
 # K8 removal on the unit-propagated stored clause list
 cnf 4 : -4 ; -4 3 ; -3 -1 ; -2 :: rmv -4
